@@ -11,6 +11,17 @@ import lib
 import l2
 import mapgen
 
+
+def shoot_retry(shoot, cwd, args, timeout=90):
+    """run shoot; a timeout (overloaded machine) is retried once with a long limit and then reported as a broken
+    check, not as a verdict about the property"""
+    r = l2.run_shoot(shoot, cwd, args, timeout=timeout)
+    if r["timed_out"]:
+        r = l2.run_shoot(shoot, cwd, args, timeout=600)
+        if r["timed_out"]:
+            raise lib.CheckBroken("shoot %s did not finish within 600 s in %s" % (" ".join(args), cwd))
+    return r
+
 ORACLE_LIB = r'''
 func dump(b *strings.Builder, v reflect.Value) {
 	switch v.Kind() {
@@ -139,7 +150,7 @@ def run_shoot_pair(shoot, mod, pair, pre=None):
         pre(shoot, mod, pair)
         if pair.status != "ok":
             return
-    r = l2.run_shoot(shoot, cwd, mapgen.shoot_args(pair.spec), timeout=60)
+    r = shoot_retry(shoot, cwd, mapgen.shoot_args(pair.spec))
     pair.shoot = {"rc": r["rc"], "err": r["err"][-1500:], "panicked": r["panicked"], "timed_out": r["timed_out"]}
     if r["rc"] != 0 or r["panicked"] or r["timed_out"]:
         pair.status = "shoot-failed"
@@ -278,7 +289,7 @@ def execute(run, pairs, shoot=None, par=6, pre=None, tag="b"):
                 p.errors = bad[p.sub][:12]
     else:
         raise lib.CheckBroken("oracle build keeps failing: " + err[-3000:])
-    rc, out, err = lib.sh([str(binp)], cwd=mod, timeout=900)
+    rc, out, err = lib.sh([str(binp)], cwd=mod, timeout=1800)
     if rc != 0:
         raise lib.CheckBroken("oracle program failed: rc=%s %s" % (rc, err[-3000:]))
     obs = {}
@@ -336,8 +347,9 @@ HEADER = ("From Coq Require Import String List ZArith NArith Bool.\n"
           "Set Printing Width 1000000.\nSet Printing Depth 1000000.\n")
 
 
-def coq_verdicts(run, pairs, tag="mc", shard_cases=250, par=6, extra_defs="", fn="mismatches", cert=None, guard="pair_guard"):
-    """returns {(pair idx, case idx): verdict} for the non-zero verdicts, and {pair idx: in_guard}"""
+def coq_verdicts(run, pairs, tag="mc", shard_cases=250, par=6, extra_defs="", fn="mismatches", cert=None, guard="pair_guard", gen=None):
+    """returns {(pair idx, case idx): verdict} for the non-zero verdicts, and {pair idx: in_guard};
+    gen (a dict) receives {pair idx: gen_verdict} (Corr.gen_report: 0 outside gen_guard, 1 inside and safe, 2 inconsistent)"""
     shards, cur, n = [], [], 0
     for p in pairs:
         if p.status != "ok" or not p.cases:
@@ -370,11 +382,16 @@ def coq_verdicts(run, pairs, tag="mc", shard_cases=250, par=6, extra_defs="", fn
                 "Definition M := Eval vm_compute in %s cases.\nPrint M.\n%s%s" % (";\n".join(terms), fn, guards, ways))
         if cert is not None:
             body += "Definition UC := Eval vm_compute in uncertified cases.\nPrint UC.\n"
+        if gen is not None:
+            body += "Definition GENR := Eval vm_compute in gen_report [%s].\nPrint GENR.\n" % "; ".join(
+                "(%d%%N, PS%d)" % (p.idx, p.idx) for p in ps)
         out = run.coq_eval("%s_%d" % (tag, k), body)
         res = {index[i]: v for i, v in lib.parse_coq_list_pairs(out, "M")}
         if cert is not None:
             cert.extend(index[i] for i, _ in lib.parse_coq_list_pairs(out, "UC"))
         g = {i: bool(v) for i, v in lib.parse_coq_list_pairs(out, "G")}
+        if gen is not None:
+            gen.update({i: v for i, v in lib.parse_coq_list_pairs(out, "GENR")})
         for i, v in lib.parse_coq_list_pairs(out, "W"):
             res[(i, -1)] = v
         return res, g
@@ -416,10 +433,10 @@ def witness_outcome(run, shoot, finding, check=None):
     l2.write_files(mod, files)
     for key, sub in (("pre", "dest"), ("pre_src", "src")):
         if key in w:      # `shoot new -getset` on the shoot-new side first
-            r0 = l2.run_shoot(shoot, mod / sub, w[key], timeout=60)
+            r0 = shoot_retry(shoot, mod / sub, w[key])
             if r0["rc"] != 0 or r0["panicked"]:
                 return "other: shoot %s failed: %s" % (" ".join(w[key]), r0["err"][-300:])
-    r = l2.run_shoot(shoot, mod / "src", w.get("args", ["map", "-path=../dest", "-type=T"]), timeout=60)
+    r = shoot_retry(shoot, mod / "src", w.get("args", ["map", "-path=../dest", "-type=T"]))
     if check:
         return check(r, mod)
     if r["panicked"]:
@@ -428,7 +445,7 @@ def witness_outcome(run, shoot, finding, check=None):
         return "other: shoot exit %d: %s" % (r["rc"], r["err"][-300:])
     if "main" in w:
         l2.write_files(mod, {"zmain/main.go": w["main"]})
-        rc, out, err = l2.go_run(mod, "./zmain", timeout=300)
+        rc, out, err = l2.go_run(mod, "./zmain", timeout=900)
         if rc != 0:
             return "other: witness program failed: " + err[-300:]
         o = out.strip()
@@ -471,10 +488,10 @@ def state_leak_outcome(run, shoot, finding):
     mod = l2.make_module(run, "kf_" + finding["id"])
     (mod / "go.mod").write_text((mod / "go.mod").read_text().replace("module kf_" + finding["id"], "module vmod"))
     l2.write_files(mod, {"src/src.go": STATE_LEAK_SRC, "dest/dest.go": STATE_LEAK_DEST})
-    r0 = l2.run_shoot(shoot, mod / "dest", ["new", "-getset", "-type=Order2"], timeout=60)
+    r0 = shoot_retry(shoot, mod / "dest", ["new", "-getset", "-type=Order2"])
     if r0["rc"] != 0:
         return "other: shoot new failed: " + r0["err"][-300:]
-    r = l2.run_shoot(shoot, mod / "src", ["map", "-path=../dest", "-type=Order2,Order"], timeout=60)
+    r = shoot_retry(shoot, mod / "src", ["map", "-path=../dest", "-type=Order2,Order"])
     if r["rc"] != 0 or r["panicked"]:
         return "other: shoot map failed: " + r["err"][-300:]
     txt = (mod / "src" / "src.shootmap.order.go").read_text()
